@@ -72,6 +72,7 @@ func (p *Prog) lifecycle() *lifecycle {
 
 func checkC07(c *Ctx) {
 	p := c.P
+	checkNoKnownNilErrorReturn(c, "R7", func(f *ssa.Function) bool { return inPkg(p, f, "") && f.Parent() == nil }, 20)
 	lc := p.lifecycle()
 	if lc.openFn == nil || lc.startFn == nil || lc.settleFn == nil || lc.continueFn == nil || lc.creator == nil || lc.driverOpen == nil {
 		c.Bad("R1", "anchors", "-", fmt.Sprintf("life-cycle functions not all found (open=%v start=%v settle=%v continue=%v create=%v driver=%v)", lc.openFn != nil, lc.startFn != nil, lc.settleFn != nil, lc.continueFn != nil, lc.creator != nil, lc.driverOpen != nil))
